@@ -240,8 +240,10 @@ func judgeNavigation(res *core.CaseResult, w *dbgWorld, s *source, r *rand.Rand,
 			if before.cursor >= before.n {
 				want = before.cursor
 			}
-			// (no later shown record: the cursor stays, or resets when it sat on a hidden one)
-			if !und && after.cursor != want && !(want == before.cursor && after.cursor == 0) {
+			// (no later shown record: the cursor stays; it resets only when it sat
+			// on a hidden record)
+			onHidden := before.cursor > 0 && !shown(before.cursor-1)
+			if !und && after.cursor != want && !(want == before.cursor && after.cursor == 0 && (onHidden || before.cursor == 0)) {
 				res.Violate("C16/nav/fwd", fmt.Sprintf("forward from cursor %d moved to %d, the next shown record is at cursor %d (filters %v, %d records; commands: %s)", before.cursor, after.cursor, want,
 					fnames(before.filters), before.n, strings.Join(log, " ")), nil)
 				return
